@@ -49,7 +49,7 @@ type model struct {
 // checkBlocks compares the real cipher with the model on every block of blocks, in both
 // directions, with separate and shared dst/src, and checks that the instance is not
 // changed by use (the first block is re-encrypted at the end).
-func checkBlocks(c *vf.Ctx, name string, real block, m model, bs int, blocks [][]byte, detail map[string]any) {
+func checkBlocks(c *vf.Ctx, name string, real block, m model, bs int, blocks [][]byte, detail map[string]any, owned ...[]byte) {
 	if real.BlockSize() != bs {
 		c.Violation(name+": BlockSize wrong", real.BlockSize())
 	}
@@ -136,8 +136,25 @@ func checkBlocks(c *vf.Ctx, name string, real block, m model, bs int, blocks [][
 		if !bytes.Equal(again, m.enc(blocks[0])) {
 			c.Violation(name+": cipher instance changed by use", detail)
 		}
+		// the caller may wipe or reuse the key (and salt) buffers it passed to the constructor:
+		// the instance must not depend on them any more
+		if len(owned) > 0 {
+			for _, o := range owned {
+				for i := range o {
+					o[i] ^= 0xFF
+				}
+			}
+			real.Encrypt(again, blocks[0])
+			back := make([]byte, bs)
+			real.Decrypt(back, m.enc(blocks[0]))
+			if !bytes.Equal(again, m.enc(blocks[0])) || !bytes.Equal(back, blocks[0]) {
+				c.Violation(name+": cipher changes when the caller overwrites the key/salt buffer it was constructed from", detail)
+			}
+		}
 	}
 }
+
+func dup(b []byte) []byte { return append(make([]byte, 0, len(b)), b...) }
 
 func run(c *vf.Ctx) {
 	c.Rule("per cipher: every key length 0..80 (accept/reject = documentation) x every accepted length x key value classes x block value classes x {Encrypt,Decrypt} x {separate,in-place,long buffers}; " +
@@ -168,7 +185,8 @@ func run(c *vf.Ctx) {
 	c.ParallelFor(81, func(n int) {
 		valid := n >= 1 && n <= 56
 		for ki, key := range keysOf("bf-key", n, 4) {
-			ci, err := blowfish.NewCipher(key)
+			kc := dup(key)
+			ci, err := blowfish.NewCipher(kc)
 			c.Eval(1)
 			if (err == nil) != valid {
 				c.Violation("blowfish.NewCipher key length acceptance differs from documentation (1..56)", map[string]any{"keylen": n, "err": fmt.Sprint(err)})
@@ -183,7 +201,7 @@ func run(c *vf.Ctx) {
 				}
 				break
 			}
-			checkBlocks(c, "blowfish", ci, bfModel(blowfishref.New(key)), 8, blocks8, map[string]any{"keylen": n, "keyclass": ki})
+			checkBlocks(c, "blowfish", ci, bfModel(blowfishref.New(key)), 8, blocks8, map[string]any{"keylen": n, "keyclass": ki}, kc)
 			c.Outcome("blowfish accepted")
 		}
 		if valid {
@@ -214,7 +232,8 @@ func run(c *vf.Ctx) {
 				salt := salts[si]
 				var ci *blowfish.Cipher
 				var err error
-				if p, v, _ := vf.Protect(func() { ci, err = blowfish.NewSaltedCipher(key, salt) }); p {
+				kc, sc := dup(key), dup(salt)
+				if p, v, _ := vf.Protect(func() { ci, err = blowfish.NewSaltedCipher(kc, sc) }); p {
 					c.Violation("blowfish.NewSaltedCipher panics", map[string]any{"keylen": g.n, "saltlen": g.sl, "panic": fmt.Sprint(v)})
 					return
 				}
@@ -232,7 +251,7 @@ func run(c *vf.Ctx) {
 				} else {
 					ref = blowfishref.NewSalted(key, salt)
 				}
-				checkBlocks(c, "blowfish(salted)", ci, bfModel(ref), 8, blocks8[:4], map[string]any{"keylen": g.n, "saltlen": g.sl, "keyclass": ki, "saltclass": si})
+				checkBlocks(c, "blowfish(salted)", ci, bfModel(ref), 8, blocks8[:4], map[string]any{"keylen": g.n, "saltlen": g.sl, "keyclass": ki, "saltclass": si}, kc, sc)
 			}
 		}
 		if valid {
@@ -272,11 +291,13 @@ func run(c *vf.Ctx) {
 			salt := c.Bytes("bf-ek-salt", v, 16)
 			var ci *blowfish.Cipher
 			var ref *blowfishref.State
+			bc, sc := dup(base), dup(salt)
+			ownedKeys := [][]byte{bc, sc}
 			if salted {
-				ci, _ = blowfish.NewSaltedCipher(base, salt)
+				ci, _ = blowfish.NewSaltedCipher(bc, sc)
 				ref = blowfishref.NewSalted(base, salt)
 			} else {
-				ci, _ = blowfish.NewCipher(base)
+				ci, _ = blowfish.NewCipher(bc)
 				ref = blowfishref.New(base)
 			}
 			for step, n := range h {
@@ -286,14 +307,16 @@ func run(c *vf.Ctx) {
 				} else {
 					key = c.Bytes(fmt.Sprintf("bf-ek-%d", step), v, n)
 				}
-				if p, pv, _ := vf.Protect(func() { blowfish.ExpandKey(key, ci) }); p {
+				kc := dup(key)
+				ownedKeys = append(ownedKeys, kc)
+				if p, pv, _ := vf.Protect(func() { blowfish.ExpandKey(kc, ci) }); p {
 					c.Violation("blowfish.ExpandKey panics", map[string]any{"history": h, "panic": fmt.Sprint(pv)})
 					return
 				}
 				ref.ExpandKey(nil, key)
 				c.Eval(1)
 			}
-			checkBlocks(c, "blowfish(ExpandKey)", ci, bfModel(ref), 8, blocks8[2:5], map[string]any{"history_keylens": h, "salted_start": salted, "valueclass": v})
+			checkBlocks(c, "blowfish(ExpandKey)", ci, bfModel(ref), 8, blocks8[2:5], map[string]any{"history_keylens": h, "salted_start": salted, "valueclass": v}, ownedKeys...)
 		}
 		c.Nontrivial(fmt.Sprintf("blowfish/ExpandKey/%v/%v", salted, h))
 	})
@@ -306,7 +329,8 @@ func run(c *vf.Ctx) {
 			extra = extraKeys * 8
 		}
 		for ki, key := range keysOf("cast5-key", n, extra) {
-			ci, err := cast5.NewCipher(key)
+			kc := dup(key)
+			ci, err := cast5.NewCipher(kc)
 			c.Eval(1)
 			if (err == nil) != valid {
 				c.Violation("cast5.NewCipher key length acceptance differs from documentation (16)", map[string]any{"keylen": n, "err": fmt.Sprint(err)})
@@ -323,7 +347,7 @@ func run(c *vf.Ctx) {
 			if ki >= 4+nv {
 				bl = [][]byte{c.Bytes("cast5-blk", ki, 8), c.Bytes("cast5-blk2", ki, 8)}
 			}
-			checkBlocks(c, "cast5", ci, model{r.Encrypt, r.Decrypt}, 8, bl, map[string]any{"keylen": n, "keyclass": ki})
+			checkBlocks(c, "cast5", ci, model{r.Encrypt, r.Decrypt}, 8, bl, map[string]any{"keylen": n, "keyclass": ki}, kc)
 			c.Nontrivial(fmt.Sprintf("cast5/key#%d", ki))
 		}
 	})
@@ -336,7 +360,8 @@ func run(c *vf.Ctx) {
 			extra = extraKeys
 		}
 		for ki, key := range keysOf("twofish-key", n, extra) {
-			ci, err := twofish.NewCipher(key)
+			kc := dup(key)
+			ci, err := twofish.NewCipher(kc)
 			c.Eval(1)
 			if (err == nil) != valid {
 				c.Violation("twofish.NewCipher key length acceptance differs from documentation (16, 24, 32)", map[string]any{"keylen": n, "err": fmt.Sprint(err)})
@@ -356,7 +381,7 @@ func run(c *vf.Ctx) {
 			if ki >= 4+nv {
 				bl = [][]byte{c.Bytes("twofish-blk", ki, 16), c.Bytes("twofish-blk2", ki, 16)}
 			}
-			checkBlocks(c, "twofish", ci, model{r.Encrypt, r.Decrypt}, 16, bl, map[string]any{"keylen": n, "keyclass": ki})
+			checkBlocks(c, "twofish", ci, model{r.Encrypt, r.Decrypt}, 16, bl, map[string]any{"keylen": n, "keyclass": ki}, kc)
 			c.Nontrivial(fmt.Sprintf("twofish/%d/key#%d", n, ki))
 		}
 	})
@@ -365,7 +390,8 @@ func run(c *vf.Ctx) {
 	c.ParallelFor(81, func(n int) {
 		valid := n == 16
 		for ki, key := range keysOf("xtea-key", n, 8) {
-			ci, err := xtea.NewCipher(key)
+			kc := dup(key)
+			ci, err := xtea.NewCipher(kc)
 			c.Eval(1)
 			if (err == nil) != valid {
 				c.Violation("xtea.NewCipher key length acceptance differs from documentation (16)", map[string]any{"keylen": n, "err": fmt.Sprint(err)})
@@ -384,7 +410,7 @@ func run(c *vf.Ctx) {
 			checkBlocks(c, "xtea", ci, model{
 				func(b []byte) []byte { return tearef.XTEAEncrypt(k, b, 32) },
 				func(b []byte) []byte { return tearef.XTEADecrypt(k, b, 32) },
-			}, 8, blocks8, map[string]any{"keylen": n, "keyclass": ki})
+			}, 8, blocks8, map[string]any{"keylen": n, "keyclass": ki}, kc)
 			c.Nontrivial(fmt.Sprintf("xtea/key#%d", ki))
 		}
 	})
@@ -394,7 +420,8 @@ func run(c *vf.Ctx) {
 	c.ParallelFor(81, func(n int) {
 		valid := n == 16
 		for ki, key := range keysOf("tea-key", n, 2) {
-			ci, err := tea.NewCipher(key)
+			kc := dup(key)
+			ci, err := tea.NewCipher(kc)
 			c.Eval(1)
 			if (err == nil) != valid {
 				c.Violation("tea.NewCipher key length acceptance differs from documentation (16)", map[string]any{"keylen": n, "err": fmt.Sprint(err)})
@@ -410,7 +437,7 @@ func run(c *vf.Ctx) {
 			checkBlocks(c, "tea", ci, model{
 				func(b []byte) []byte { return tearef.TEAEncrypt(k, b, 32) },
 				func(b []byte) []byte { return tearef.TEADecrypt(k, b, 32) },
-			}, 8, blocks8, map[string]any{"keylen": n, "rounds": "default", "keyclass": ki})
+			}, 8, blocks8, map[string]any{"keylen": n, "rounds": "default", "keyclass": ki}, kc)
 			c.Nontrivial(fmt.Sprintf("tea/default/key#%d", ki))
 		}
 	})
@@ -420,7 +447,8 @@ func run(c *vf.Ctx) {
 			for ki, key := range keysOf("tea-rkey", n, 0) {
 				var ci cipher.Block
 				var err error
-				if p, v, _ := vf.Protect(func() { ci, err = tea.NewCipherWithRounds(key, rounds) }); p {
+				kc := dup(key)
+				if p, v, _ := vf.Protect(func() { ci, err = tea.NewCipherWithRounds(kc, rounds) }); p {
 					c.Violation("tea.NewCipherWithRounds panics", map[string]any{"keylen": n, "rounds": rounds, "panic": fmt.Sprint(v)})
 					return
 				}
@@ -437,7 +465,7 @@ func run(c *vf.Ctx) {
 				checkBlocks(c, "tea(rounds)", ci, model{
 					func(b []byte) []byte { return tearef.TEAEncrypt(k, b, cyc) },
 					func(b []byte) []byte { return tearef.TEADecrypt(k, b, cyc) },
-				}, 8, blocks8, map[string]any{"keylen": n, "rounds": rounds, "keyclass": ki})
+				}, 8, blocks8, map[string]any{"keylen": n, "rounds": rounds, "keyclass": ki}, kc)
 			}
 			if valid {
 				c.Nontrivial(fmt.Sprintf("tea/rounds=%d", rounds))
@@ -464,7 +492,8 @@ func run(c *vf.Ctx) {
 			for ki, key := range keys {
 				var ci cipher.Block
 				var err error
-				if p, v, _ := vf.Protect(func() { ci, err = pkcs12.VerifC12NewRC2(key, t1) }); p {
+				kc := dup(key)
+				if p, v, _ := vf.Protect(func() { ci, err = pkcs12.VerifC12NewRC2(kc, t1) }); p {
 					c.Violation("rc2.New panics inside the RFC 2268 parameter range", map[string]any{"keylen": n, "bits": t1, "panic": fmt.Sprint(v)})
 					return
 				}
@@ -474,7 +503,7 @@ func run(c *vf.Ctx) {
 					return
 				}
 				r := rc2ref.New(key, t1)
-				checkBlocks(c, "rc2", ci, model{r.Encrypt, r.Decrypt}, 8, blocks8[3:5], map[string]any{"keylen": n, "bits": t1, "keyclass": ki})
+				checkBlocks(c, "rc2", ci, model{r.Encrypt, r.Decrypt}, 8, blocks8[3:5], map[string]any{"keylen": n, "bits": t1, "keyclass": ki}, kc)
 			}
 			c.Nontrivial(fmt.Sprintf("rc2/%d/%d", n, t1))
 		}
@@ -485,13 +514,14 @@ func run(c *vf.Ctx) {
 	// the two parameterisations PKCS#12 itself uses, on the whole block alphabet
 	for _, n := range []int{5, 16} {
 		for ki, key := range keysOf("rc2-p12", n, 16) {
-			ci, err := pkcs12.VerifC12NewRC2(key, 8*n)
+			kc := dup(key)
+			ci, err := pkcs12.VerifC12NewRC2(kc, 8*n)
 			if err != nil {
 				c.Violation("rc2.New rejects a PKCS#12 parameter set", n)
 				continue
 			}
 			r := rc2ref.New(key, 8*n)
-			checkBlocks(c, "rc2", ci, model{r.Encrypt, r.Decrypt}, 8, blocks8, map[string]any{"keylen": n, "bits": 8 * n, "keyclass": ki})
+			checkBlocks(c, "rc2", ci, model{r.Encrypt, r.Decrypt}, 8, blocks8, map[string]any{"keylen": n, "bits": 8 * n, "keyclass": ki}, kc)
 		}
 	}
 	c.Sample(map[string]any{"cipher": "blowfish", "accepted_keylens": "1..56", "salted": "keylen>=1 with non-empty salt", "expandkey_histories": len(hist) * 2})
